@@ -900,6 +900,21 @@ def c16(tier, seed):
                     "steps": list(emit_steps) + [step("app", "send_dgram", len=1, salt=5), step("app", "send_dgram", len=40, salt=6),
                                                 sleep(60)]})
         n += 1
+    # (b3) the peer grants 1-3 bytes of flow control per stream: SETTINGS, HEADERS and the stream
+    # preambles leave in several short writes and must still be whole
+    for role in ("client", "server"):
+        for win in (1, 3):
+            scn = {"scn": "C16-%04d" % n, "role": role, "peer": "raw", "cfg": {"peer_stream_window": win},
+                   "meta": {"prop": "C16", "family": "tiny-window-" + role, "decision": "accept"},
+                   "steps": list(emit_steps) + [sleep(200)]}
+            if role == "client":
+                scn["url"] = urls[1]
+                scn["headers"] = [["origin", "https://example.org"], ["x-a", "1"]]
+            else:
+                scn["decision"] = "accept_headers"
+                scn["extra"] = [["x-extra", "1"]]
+            out.append(scn)
+            n += 1
     # (c) error paths that make the endpoint speak (codes must be registered values)
     for s in c12(tier, seed):
         names = s["meta"]["names"]
